@@ -1,6 +1,9 @@
 import JrsVerif.Common.J
 import JrsVerif.Model.Pratt
 import JrsVerif.Model.Unescape
+import JrsVerif.Model.PrattLit
+import JrsVerif.Model.PrattTrivia
+import JrsVerif.Model.PrattSuffix
 
 namespace JrsVerif.Drv.C06
 open Lean JrsVerif.J JrsVerif.Generated JrsVerif.Pratt
@@ -51,14 +54,131 @@ def showRes (texts : Array String) : Option Ast → String
   | none => "reject"
   | some e => showAst texts e
 
+/-- a `(` directly after an atom or a `)` opens an argument list (`expr_suffix`), which the
+    expression-fragment model of this op does not cover -/
+def hasCallSuffix : List Tok → Bool
+  | .atom _ :: .lpar :: _ => true
+  | .rpar :: .lpar :: _ => true
+  | _ :: r => hasCallSuffix r
+  | [] => false
+
 def cps (a : Array Json) : List Nat := nats a
 
 def showOut : Option (List Nat) → Json
   | none => .null
   | some l => ofNats l
 
+def kindName : JrsVerif.Lit.NumKind → String
+  | .float => "FLOAT"
+  | .junkPoint => "ERROR_FLOAT_JUNK_AFTER_POINT"
+  | .junkExp => "ERROR_FLOAT_JUNK_AFTER_EXPONENT"
+  | .junkExpSign => "ERROR_FLOAT_JUNK_AFTER_EXPONENT_SIGN"
+
+def showLex : Option (JrsVerif.Lit.NumKind × Nat) → Json
+  | none => .null
+  | some (k, n) => obj [("kind", .str (kindName k)), ("len", toJson n)]
+
+/-- the double a decoded literal denotes, as the decimal rendering of its bit pattern; "other" when
+    there is no finite double (`numbers are finite`) or no number -/
+def showNum : Option JrsVerif.Lit.F64Lit → Json
+  | some (.dec false m e) =>
+    match JrsVerif.Lit.decToBits m e with
+    | some b => .str (toString b)
+    | none => .str "other"
+  | _ => .str "other"
+
+def groupsOf (a : Array Json) : Option JrsVerif.Spec.Groups :=
+  match (strs a).map (fun s => s.toList.map Char.toNat) with
+  | f :: m => some ⟨f, m⟩
+  | [] => none
+
+/-- structured literal sent by the generator: {"int":[..], "frac":[..]|null, "exp":{"l":"e","s":"+"|null,"g":[..]}|null} -/
+def numLitOf (j : Json) : Option JrsVerif.Spec.NumLit := do
+  let i ← groupsOf (← arr? j "int")
+  let f : Option JrsVerif.Spec.Groups := (arr? j "frac").bind groupsOf
+  let e : Option (Nat × Option Nat × JrsVerif.Spec.Groups) :=
+    match val? j "exp" with
+    | some ej =>
+      match str? ej "l", arr? ej "g" with
+      | some l, some g =>
+        match l.toList, groupsOf g with
+        | [lc], some gg => some (lc.toNat, ((str? ej "s").bind (fun s => s.toList.head?)).map Char.toNat, gg)
+        | _, _ => none
+      | _, _ => none
+    | none => none
+  pure ⟨i, f, e⟩
+
+def lexemesOf (a : Array Json) : List JrsVerif.Trivia.Lexeme :=
+  a.toList.filterMap (fun x => match x with
+    | .arr #[.str k, .str t] => some ⟨k, t⟩
+    | _ => none)
+
+def itemsOf (a : Array Json) : Option (List JrsVerif.Suffix.Item) :=
+  a.toList.mapM (fun x => match x with
+    | .arr #[.str "part", .str p] => some (JrsVerif.Suffix.Item.part p)
+    | .arr #[.str "slice", .str p] => some (.slice p)
+    | .arr #[.str "call", .str p] => some (.call p)
+    | .arr #[.str "ext", .str p] => some (.ext p)
+    | _ => none)
+
+/-- the harness's span-erased s-expression of the tree -/
+def showTree : JrsVerif.Suffix.Tree → String
+  | .base s => s
+  | .index e ps => "(index " ++ showTree e ++ String.join (ps.map (" " ++ ·)) ++ ")"
+  | .slice e d => "(slice " ++ showTree e ++ " " ++ d ++ ")"
+  | .apply e a => "(apply " ++ showTree e ++ " " ++ a ++ ")"
+  | .ext e b => "(objext " ++ showTree e ++ " " ++ b ++ ")"
+
 def handle (op : String) (j : Json) : Option Json :=
   match op with
+  | "c06.suffix" =>
+    match str? j "base", (arr? j "items").bind itemsOf with
+    | some b, some items =>
+      let m := showTree (JrsVerif.Suffix.exprSuffix (.base b) items)
+      let s := showTree (JrsVerif.Spec.applyChain (.base b) items)
+      some (obj [("model", obj [("ir", .str m), ("peg", .str s)]), ("spec", obj [("ir", .str s), ("peg", .str s)])])
+    | _, _ => some (bad "c06.suffix: parse")
+  | "c06.number" =>
+    match arr? j "s" with
+    | some a =>
+      let s := cps a
+      let lex := showLex (JrsVerif.Lit.lexNum s)
+      let ir := showNum (JrsVerif.Lit.irWhole s)
+      let peg := showNum (match JrsVerif.Lit.pegNumber s with | some (v, []) => some v | _ => none)
+      match val? j "lit" with
+      | some lj =>
+        match numLitOf lj with
+        | some n =>
+          if n.render != s then some (bad "c06.number: rendering of the structured literal differs from the text")
+          else
+            let want := showNum (some (.dec false n.mantissa n.exponent))
+            some (obj [("model", obj [("lex", lex), ("ir", ir), ("peg", peg)]),
+                       ("spec", obj [("lex", showLex (some (.float, s.length))), ("ir", want), ("peg", want)])])
+        | none => some (bad "c06.number: lit")
+      | none =>
+        some (obj [("model", obj [("lex", lex), ("ir", ir), ("peg", peg)]),
+                   ("spec", obj [("lex", lex), ("ir", ir), ("peg", ir)])])
+    | none => some (bad "c06.number: parse")
+  | "c06.verbatim" =>
+    match arr? j "s", nat? j "q" with
+    | some a, some q =>
+      let s := cps a
+      let whole (r : Option (List Nat × List Nat)) : Option (List Nat) :=
+        match r with | some (c, []) => some c | _ => none
+      let ir := showOut (whole (JrsVerif.Lit.irVerbatim q s))
+      let peg := showOut (whole (JrsVerif.Lit.pegVerbatim q s))
+      match arr? j "content" with
+      | some c =>
+        if JrsVerif.Spec.verbRender q (cps c) != s then some (bad "c06.verbatim: rendering of the content differs from the text")
+        else some (obj [("model", obj [("ir", ir), ("peg", peg)]), ("spec", obj [("ir", ofNats (cps c)), ("peg", ofNats (cps c))])])
+      | none => some (obj [("model", obj [("ir", ir), ("peg", peg)]), ("spec", obj [("ir", ir), ("peg", ir)])])
+    | _, _ => some (bad "c06.verbatim: parse")
+  | "c06.strip" =>
+    match arr? j "lexemes", arr? j "base" with
+    | some a, some b =>
+      let same := decide (JrsVerif.Trivia.strip (lexemesOf a) = JrsVerif.Trivia.strip (lexemesOf b))
+      some (obj [("model", obj [("same_tree", .bool same)]), ("spec", obj [("same_tree", .bool true)])])
+    | _, _ => some (bad "c06.strip: parse")
   | "c06.agree" =>
     match str? j "ir", str? j "peg", val? j "rowan" with
     | some ir, some peg, some rowan =>
@@ -76,6 +196,9 @@ def handle (op : String) (j : Json) : Option Json :=
       match toToks texts with
       | none => some (bad "c06.pratt: token outside the fragment")
       | some ts =>
+        if hasCallSuffix ts then
+          some (obj [("skip", .bool true), ("_why", .str "c06.pratt: `(` directly after an operand is a call suffix, outside the atoms/parentheses/prefix/binary fragment of this op (call and other suffixes are compared between the real parsers by c06.agree)")])
+        else
         let T := if via == "peg" then pegTable else irTable
         let ta := texts.toArray
         let m := showRes ta (parse T ts)
